@@ -96,9 +96,20 @@ def endByteOffset (t : Tree) (off : Nat) : Nat :=
 def diffSpanEnd (t : Tree) (off : Nat) : Nat :=
   if t.data.symbol = symEnd then endByteOffset t off else endByteOffset t off + t.data.lookahead
 
+/-- The extra test of the proposed repair `fixes/C01-column-token-range-change.diff` (absent from
+the pinned tree; `enabled` says whether the source under test contains it): a column-dependent
+candidate is refused when an included-range difference — searched from index 0, not from
+`included_range_difference_index` — intersects the part of its line before it,
+`[off − column, off)`. -/
+def lineDiffOf (enabled : Bool) (allDiffs : List (Nat × Nat)) (t : Tree) (off column : Nat) : Bool :=
+  enabled && t.data.dependsOnColumn && !allDiffs.isEmpty &&
+    decide (off - column < off) && rangeIntersects allDiffs (off - column) off
+
 /-- One iteration of the loop of `ts_parser__reuse_node`: the decision for candidate `t` at byte
-offset `off` when the parser is at `pos` in parse state `state`. -/
-def reuseGate (L : Lang) (diffs : List (Nat × Nat)) (t : Tree) (off pos state : Nat) (extEq : Bool) : Verdict :=
+offset `off` when the parser is at `pos` in parse state `state`.  `lineDiff` is the outcome of
+`lineDiffOf` (always `false` for the pinned tree). -/
+def reuseGate (L : Lang) (diffs : List (Nat × Nat)) (t : Tree) (off pos state : Nat) (extEq : Bool)
+    (lineDiff : Bool := false) : Verdict :=
   if off > pos then .before
   else if off < pos then .past
   else if !extEq then .extState
@@ -107,6 +118,7 @@ def reuseGate (L : Lang) (diffs : List (Nat × Nat)) (t : Tree) (off pos state :
   else if t.data.isMissing then .isMissing
   else if t.data.fragileLeft || t.data.fragileRight then .isFragile
   else if rangeIntersects diffs off (diffSpanEnd t off) then .rangeDiff
+  else if lineDiff then .rangeDiff
   else if !canReuseFirstLeaf L state t (L.tableEntry state (leafSymbol t)) then .firstLeaf
   else .reuse
 
